@@ -189,7 +189,8 @@ func VerifH_C02_ModUp() {
 
 // ModDown: x is a centred integer modulo QP given by its residues on both bases; the output must be the rounded
 // quotient x/P (resp. x/Q) up to an error of at most one, the same on every limb.
-//   kind 0: ModDownQPtoQ   kind 1: ModDownQPtoQNTT (transform stand-ins)   kind 2: ModDownQPtoP
+//
+//	kind 0: ModDownQPtoQ   kind 1: ModDownQPtoQNTT (transform stand-ins)   kind 2: ModDownQPtoP
 func vModDownCase(be *BasisExtender, levelQ, levelP, kind int) {
 	rq, rp := be.ringQ.AtLevel(levelQ), be.ringP.AtLevel(levelP)
 	Q, P := vModulusOf(rq), vModulusOf(rp)
